@@ -22,7 +22,7 @@ func init() {
 				// clause (b): CFGs the builder really produces, naive and lifted form
 				max := 16
 				if c.Tier == "thorough" {
-					max = 30
+					max = 20
 				}
 				runIRChecks(c, false, true, max)
 				return nil
